@@ -9,6 +9,7 @@ import copy
 import mosaik
 import mosaik_api_v3
 from mosaik.exceptions import ScenarioError
+from mosaik_api_v3.connection import RemoteException
 
 from vk import sysrun
 from vk.engine import PathCut
@@ -32,13 +33,21 @@ class AgentSim(sysrun.SymSim):
             if not CTX.get('no_get') and eng.flag(f'{self.sid}.get{k}.{j}'):
                 yield latency(self.sid)
                 mon.request(self.sid, 'get', time)
-                data = yield self.mosaik.get_data({f'{target}.e': ['op']})
+                try:
+                    data = yield self.mosaik.get_data({f'{target}.e': ['op']})
+                except RemoteException as e:      # only behind the remote transport: the refusal arrives as a failure reply
+                    mon.remote_refused(self.sid, 'get', time, e)
+                    raise
                 mon.got(self.sid, time, data)
             if eng.flag(f'{self.sid}.set{k}.{j}'):
                 yield latency(self.sid)
                 val = f'{self.sid}#{k}.{j}'
                 mon.request(self.sid, 'set', time)
-                yield self.mosaik.set_data({f'{self.sid}.e': {f'{target}.e': {'im': val}}})
+                try:
+                    yield self.mosaik.set_data({f'{self.sid}.e': {f'{target}.e': {'im': val}}})
+                except RemoteException as e:
+                    mon.remote_refused(self.sid, 'set', time, e)
+                    raise
                 mon.did_set(self.sid, time, target, val)
         if self.typ == 'event-based':
             return None     # an idle agent: stepped only when triggered
@@ -67,6 +76,7 @@ class Monitor:
         self.agents = agents
         self.allowed = allowed  # agents that have an async connection
         self.refused_expected = []
+        self.refusals = []      # failure replies received by remote agents
         self.nset = 0
         self.nsteps = 0
         self.a_begun = []
@@ -76,6 +86,9 @@ class Monitor:
     def request(self, sid, kind, time):
         if sid not in self.allowed:
             self.refused_expected.append((sid, kind, time))
+
+    def remote_refused(self, sid, kind, time, e):
+        self.refusals.append((sid, kind, time, e.remote_type))
 
     def did_set(self, sid, time, target, val):
         self.nset += 1
@@ -139,7 +152,16 @@ def async_run(n_agents, unconnected, cfg, data_edge=False, triggered=False, feed
         agents = ['B', 'C'][:n_agents]
         extra = 'X' if unconnected else None
         until = cfg.get('until', 3)
-        loop = sysrun.OracleLoop(eng, D=cfg.get('D', 0))
+        remote = list(cfg.get('remote', ()))
+        if remote:
+            from vk import remote as R
+            loop = R.MemLoop(eng, D=cfg.get('D', 0))
+            R.SIM_CLASSES['2'] = AgentSim
+            remote_ctx = R.patched
+        else:
+            import contextlib
+            loop = sysrun.OracleLoop(eng, D=cfg.get('D', 0))
+            remote_ctx = contextlib.nullcontext
         log = []
         mon = Monitor(eng, agents + ([extra] if extra else []), set(agents))
         CTX.clear()
@@ -147,11 +169,15 @@ def async_run(n_agents, unconnected, cfg, data_edge=False, triggered=False, feed
                    hook=mon.hook, mon=mon, targets={}, requests_per_step=cfg.get('requests_per_step', 1), bounded_times=True,
                    no_get=cfg.get('no_get', False))
         outcome, exc = None, None
-        with sysrun.patched(salt=cfg.get('salt', 0)):
-            w = mosaik.World({'S': {'python': 'vk.sysrun:SymSim'}, 'G': {'python': 'vk.kernels.c16:AgentSim'}}, skip_greetings=True,
+        with sysrun.patched(salt=cfg.get('salt', 0)), remote_ctx():
+            w = mosaik.World({'S': {'python': 'vk.sysrun:SymSim'}, 'G': {'python': 'vk.kernels.c16:AgentSim'},
+                              'RS': {'connect': 'mem:1'}, 'RG': {'connect': 'mem:2'}}, skip_greetings=True,
                              asyncio_loop=loop, cache=cfg.get('cache', True))
+
+            def kind_of(sid, base):
+                return 'R' + base if sid in remote else base
             try:
-                a = w.start('S', sim_id='A', typ='time-based').M()
+                a = w.start(kind_of('A', 'S'), sim_id='A', typ='time-based').M()
                 ents = {}
                 if feeder:
                     # an ordinary persistent connection into the very attribute the agents write with set_data
@@ -161,7 +187,7 @@ def async_run(n_agents, unconnected, cfg, data_edge=False, triggered=False, feed
                     # the agents are event-based and triggered by a separate clock simulator T
                     clock = w.start('S', sim_id='T', typ='time-based').M()
                 for b in agents:
-                    ents[b] = w.start('G', sim_id=b, typ='event-based' if triggered else 'time-based').M()
+                    ents[b] = w.start(kind_of(b, 'G'), sim_id=b, typ='event-based' if triggered else 'time-based').M()
                     if triggered:
                         w.connect(clock, ents[b], ('op', 'it'))
                     if data_edge == 'shift':
@@ -171,7 +197,7 @@ def async_run(n_agents, unconnected, cfg, data_edge=False, triggered=False, feed
                     else:
                         w.connect(a, ents[b], async_requests=True)
                 if extra:
-                    ents[extra] = w.start('G', sim_id=extra, typ='time-based').M()
+                    ents[extra] = w.start(kind_of(extra, 'G'), sim_id=extra, typ='time-based').M()
                     if unconnected == 'plain':
                         w.connect(a, ents[extra], ('op', 'im'))
                 loop.active = True
@@ -192,11 +218,18 @@ def async_run(n_agents, unconnected, cfg, data_edge=False, triggered=False, feed
                 if not loop.is_closed():
                     loop.close()
         fp = [n_agents, unconnected]
-        desc = f'agents={agents} extra={extra}({unconnected}) sync={cfg.get("sync")}'
+        desc = f'agents={agents} extra={extra}({unconnected}) sync={cfg.get("sync")}' + (f' remote={remote}' if remote else '')
         if outcome == 'ScenarioError':
             eng.check(bool(mon.refused_expected), 'C16.refused', f'run() raised ScenarioError although every request came over an async_requests connection: {exc}: {desc}', {'fp': fp})
         elif outcome == 'done':
-            eng.check(not mon.refused_expected, 'C16.notrefused', f'requests {mon.refused_expected} without an async_requests connection were not refused: {desc}', {'fp': fp})
+            # behind the remote transport the refusal reaches the simulator as a failure reply naming the error type
+            got = [(s_, k_, t_) for s_, k_, t_, _ in mon.refusals]
+            unrefused = [x for x in mon.refused_expected if x not in got]
+            eng.check(not unrefused, 'C16.notrefused', f'requests {unrefused} without an async_requests connection were not refused: {desc}', {'fp': fp})
+            wrong = [x for x in mon.refusals if x[3] != 'ScenarioError']
+            eng.check(not wrong, 'C16.refused', f'requests were refused with {wrong}, not with ScenarioError: {desc}', {'fp': fp})
+            spurious = [x for x in mon.refusals if x[:3] not in mon.refused_expected]
+            eng.check(not spurious, 'C16.refused', f'requests over an async_requests connection were refused: {spurious}: {desc}', {'fp': fp})
             left = {k: v for k, v in mon.pending.items()}
             # values set after A's last step are never delivered; that is fine.  Nothing else to check at the end.
         else:
@@ -210,11 +243,13 @@ def jobs(tier):
     out = []
 
     def add(n_agents, unconnected, K, until, syncs, caches=(True, False), data_edge=False, rps=1, D=0, split=None, no_get=False, lazy=True,
-            triggered=False, feeder=False):
+            triggered=False, feeder=False, remote=()):
         for sync in syncs:
             for cache in caches:
                 cfg = {'until': until, 'K': K, 'cache': cache, 'lazy': lazy, 'D': D, 'sync': sync, 'requests_per_step': rps, 'no_get': no_get}
-                j = {'id': f"async|n={n_agents}|x={unconnected}|K={K}|until={until}|sync={''.join(sync) or '-'}|cache={int(cache)}|de={data_edge if isinstance(data_edge, str) else int(data_edge)}|rps={rps}|D={D}|ng={int(no_get)}|lazy={int(lazy)}|trig={int(triggered)}|feed={int(feeder)}",
+                if remote:
+                    cfg['remote'] = list(remote)
+                j = {'id': ('' if not remote else f"remote={''.join(remote)}|") + f"async|n={n_agents}|x={unconnected}|K={K}|until={until}|sync={''.join(sync) or '-'}|cache={int(cache)}|de={data_edge if isinstance(data_edge, str) else int(data_edge)}|rps={rps}|D={D}|ng={int(no_get)}|lazy={int(lazy)}|trig={int(triggered)}|feed={int(feeder)}",
                      'harness': 'vk.kernels.c16:async_run',
                      'params': {'n_agents': n_agents, 'unconnected': unconnected, 'cfg': cfg, 'data_edge': data_edge, 'triggered': triggered, 'feeder': feeder},
                      'budget_s': 300}
@@ -239,6 +274,17 @@ def jobs(tier):
     add(1, None, 3, 3, [['A', 'B'], ['B'], []], caches=(True,), feeder=True, data_edge='shift', no_get=True)
     add(1, 'none', 2, 2, [[], ['A', 'B', 'X']], caches=(True,))
     add(1, 'plain', 2, 2, [[], ['A', 'B', 'X']], caches=(True,))
+    # the agent (and A) behind the in-memory remote transport: requests travel through RemoteProxy._handle_remote_requests
+    add(1, None, 2, 3, [['A', 'B']], caches=(True,), remote=['B'])
+    add(1, None, 2, 3, [['A', 'B']], caches=(False,), remote=['A', 'B'])
+    add(1, 'none', 2, 2, [['A', 'B', 'X']], caches=(True,), remote=['X'])
+    if not q:
+        add(1, None, 3, 3, [['A', 'B']], remote=['B'])
+        add(1, None, 3, 3, [['A', 'B']], remote=['A', 'B'], lazy=False)
+        add(1, None, 2, 3, [['B'], []], caches=(True,), remote=['B'])
+        add(1, 'plain', 2, 2, [['A', 'B', 'X']], caches=(True,), remote=['X'])
+        add(2, None, 2, 2, [['A', 'B', 'C']], caches=(True,), remote=['B', 'C'], no_get=True, split=16)
+        add(1, None, 2, 3, [['A', 'B', 'T']], caches=(True,), remote=['B'], triggered=True, no_get=True, split=16)
     if not q:
         add(1, None, 3, 3, [[]], D=1)
         add(2, None, 2, 3, [['A'], ['A', 'B', 'C']], split=18, no_get=True, lazy=False)
